@@ -231,3 +231,25 @@ Definition spec_transform (s : sscale) (dx dy : Z) (p : Q * Q) : Q * Q :=
     | TwoByTwo a b c d => (f2d14 a, f2d14 b, f2d14 c, f2d14 d)
     end in
   (a * fst p + c * snd p + inject_Z dx, b * fst p + d * snd p + inject_Z dy)%Q.
+
+(* ---------------------------------------------------------------------------------------------- *)
+(* the simple glyph description as a whole (OpenType glyf, "Simple Glyph Description")             *)
+
+Definition be16 (v : Z) : list Z := let w := v mod 65536 in [w / 256; w mod 256].
+
+(* endPtsOfContours: index of the last point of each contour *)
+Fixpoint end_points (start : Z) (cs : list (list spoint)) : list Z :=
+  match cs with
+  | [] => []
+  | c :: r => (start + len c - 1) :: end_points (start + len c) r
+  end.
+
+Definition simple_glyph_bytes (cs : list (list spoint)) (bbox instr : list Z)
+           (chs : list pchoice) (gs : list group) : list Z :=
+  be16 (len cs) ++ bbox ++ flat_map be16 (end_points 0 cs) ++ be16 (len instr) ++ instr ++
+  encode_points (concat cs) chs gs.
+
+Definition simple_glyph_legal (cs : list (list spoint)) (bbox instr : list Z)
+           (chs : list pchoice) (gs : list group) : bool :=
+  forallb (fun c => negb (len c =? 0)) cs && (len cs <=? 32767) && (len (concat cs) <=? 65536) &&
+  (len bbox =? 8) && (len instr <=? 65535) && encoding_legal (concat cs) chs gs.
